@@ -206,3 +206,114 @@ Proof.
 Qed.
 
 End PartA.
+
+(* ------------------------------------------------------------------------------------------ *)
+(* whole polls that end in CheckTokenPass                                                       *)
+
+Section PartB.
+Variable A : Type.
+Variable ops : app_ops A.
+Notation W := (world A).
+
+(* a poll that transmits and ends in CheckTokenPass (the pass, a retry, the pass after a removal):
+   pending_bytes covers what is left in the receive buffer *)
+Lemma enter_ctp_covered f now busy rxb (apps : list A) f' o apps' calls att' wire :
+  poll ops f now (mkPhyIn busy rxb) apps = Ok (f', o, apps', calls) -> tx o = Some wire ->
+  f_state f' = CheckTokenPass att' -> (length (rx_left o) <= f_pending f')%nat.
+Proof.
+  intros E Htx Hst'.
+  destruct (poll_bk A ops now _ _ _ _ _ _ _ E) as (_ & _ & _ & L & _). rewrite Htx in L. cbn [tx_busy rx] in L.
+  destruct L as (_ & Hb & Hcov & (l & El & Hlt)). subst busy.
+  assert (Hbody : exists w', C11Proofs.body A ops f now false (mkWorld rxb None apps [] []) = Ok (f', w') /\ o = mkPhyOut (w_tx w') (w_rx w')).
+  { destruct (have_token (f_state f)) eqn:Eh.
+    - destruct (poll_have_token_body A ops _ _ _ _ _ _ _ _ Eh E) as (w' & Hb & Ho & _). exists w'. split; assumption.
+    - destruct (in_pass (f_state f)) eqn:Ei.
+      + destruct (poll_in_pass_body A ops _ _ _ _ _ _ _ _ Ei E) as (w' & Hb & Ho & _). exists w'. split; assumption.
+      + exfalso. pose proof (idle_poll_not_in_pass A ops _ _ _ _ _ _ _ _ E Eh Ei) as C. rewrite Hst' in C. discriminate C. }
+  destruct Hbody as (w' & H & ->). cbn [tx rx_left] in *.
+  unfold C11Proofs.body in H. cbn [orb] in H.
+  assert (Hpred : C11Proofs.predicted f now = false).
+  { unfold C11Proofs.predicted. rewrite El. apply Z.leb_gt. pose proof (sync_nonneg f). lia. }
+  rewrite Hpred in H. unfold check_for_bus_activity in H. cbn [w_rx] in H.
+  destruct (Nat.ltb_spec (f_pending f) (length rxb)) as [C|_]; [lia|].
+  set (w := mkWorld rxb None apps [] []) in *.
+  assert (Hc : covered A f w) by exact Hcov.
+  unfold C11Proofs.dispatch in H.
+  destruct (f_state f) as [ | | | |tk fa fcd|st|addr tk fa|dg att|att|a0] eqn:Es; cbn [kind_of poll_dispatch] in H; try discriminate H.
+  - exfalso. apply do_listen_token_entry in H. rewrite Hst' in H. discriminate H.
+  - exfalso. apply do_active_idle_entry in H; [|reflexivity]. unfold pass_entry in H. rewrite Hst' in H.
+    apply idle_poll_not_in_pass in E; [|rewrite Es; reflexivity|rewrite Es; reflexivity]. rewrite Hst' in E. discriminate E.
+  - destruct (do_use_token_ctp A ops _ _ _ _ _ _ H Hst') as [Hp Hr]. unfold covered in Hc. rewrite Hp, Hr. exact Hc.
+  - exfalso. exact (do_claim_token_not_in_pass A _ _ _ _ _ _ H Hst').
+  - exact (do_await_data_response_ctp A ops _ _ _ _ _ _ H Hst' Hc).
+  - pose proof (do_pass_token_pending A _ _ _ _ _ H) as Hp. pose proof (do_pass_token_rx A _ _ _ _ _ H) as Hr.
+    unfold covered in Hc. rewrite Hp, Hr. exact Hc.
+  - destruct (check_slot_expired f now) as [[f1 b]| |] eqn:Ecs.
+    + destruct b.
+      * destruct (ctp_expired_pending A _ _ _ _ _ _ _ Es Ecs H) as [Hp Hr]. unfold covered in Hc. rewrite Hp, Hr. exact Hc.
+      * exfalso. destruct (ctp_wait_exact A _ _ _ _ _ _ _ _ Es Ecs H Hst') as (_ & T & _). rewrite Htx in T. discriminate T.
+    + unfold do_check_token_pass, assert_entry in H. rewrite Es in H. cbn [kind_of do_fn_entry state_kind_eqb bind] in H.
+      rewrite Ecs in H. discriminate H.
+    + unfold do_check_token_pass, assert_entry in H. rewrite Es in H. cbn [kind_of do_fn_entry state_kind_eqb bind] in H.
+      rewrite Ecs in H. discriminate H.
+  - exact (do_await_status_response_ctp A _ _ _ _ _ _ H Hst' Hc).
+Qed.
+
+(* a poll without transmission that ends in CheckTokenPass started there; exact bookkeeping *)
+Lemma stay_ctp f now busy rxb (apps : list A) f' o apps' calls att' :
+  poll ops f now (mkPhyIn busy rxb) apps = Ok (f', o, apps', calls) -> tx o = None ->
+  f_state f' = CheckTokenPass att' ->
+  (exists att, f_state f = CheckTokenPass att) /\
+  ((busy || C11Proofs.predicted f now = true /\ f_lba f' = Some (Z.max (gv now (f_lba f)) now) /\
+    f_pending f' = f_pending f /\ rx_left o = rxb) \/
+   (busy = false /\ C11Proofs.predicted f now = false /\
+    let fresh := Nat.ltb (f_pending f) (length rxb) in
+    f_lba f' = Some (if fresh then Z.max (gv now (f_lba f)) now else gv now (f_lba f)) /\
+    rx_left o = (match decode_spec rxb with Reject => [] | _ => rxb end) /\
+    f_pending f' = Nat.min (if fresh then length rxb else f_pending f) (length (rx_left o)))).
+Proof.
+  intros E Htx Hst'.
+  assert (Hpre : exists att, f_state f = CheckTokenPass att).
+  { destruct (in_pass (f_state f)) eqn:Ei.
+    - destruct (f_state f) as [ | | | | | | |dg att|att| ] eqn:Es; try discriminate Ei; [|exists att; reflexivity].
+      exfalso. destruct (pass_token_poll A ops f now _ apps f' o apps' calls dg att Es E) as [_ [_ [_ [_ D]]]].
+      destruct D as [[_ [Hs _]]|[[addr [_ [_ [Hs _]]]]|[r' [_ [_ [T _]]]]]];
+        [rewrite Hs in Hst'; discriminate Hst'|rewrite Hs in Hst'; discriminate Hst'|rewrite Htx in T; discriminate T].
+    - exfalso. pose proof (poll_entry A ops f now _ apps f' o apps' calls Ei E) as He. rewrite Hst' in He.
+      destruct He as [_ He]. contradiction. }
+  split; [exact Hpre|]. destruct Hpre as [att Es].
+  destruct (poll_in_pass_body A ops f now _ apps f' o apps' calls ltac:(rewrite Es; reflexivity) E) as (w' & H & -> & _).
+  cbn [tx rx_left tx_busy rx] in *. unfold C11Proofs.body in H.
+  destruct (busy || C11Proofs.predicted f now) eqn:Eb.
+  - left. injection H as <- <-. split; [reflexivity|].
+    destruct (mark_bus_activity_lba f now) as [Hl Hp]. rewrite Hl, Hp. cbn [w_rx note].
+    split; [|split; reflexivity]. destruct (f_lba f); cbn [gv]; [reflexivity|rewrite Z.max_id; reflexivity].
+  - right. apply orb_false_elim in Eb. destruct Eb as [Eb1 Eb2]. split; [exact Eb1|]. split; [exact Eb2|].
+    cbv zeta.
+    destruct (check_for_bus_activity A f now _) as [f1 w1] eqn:Ec. apply cfba_spec in Ec.
+    destruct Ec as [[_ [_ [_ [_ [Hs1 _]]]]] [Htx1 [_ [Hrx1 [_ Hlba]]]]]. cbn [w_tx w_rx] in Htx1, Hrx1, Hlba.
+    unfold C11Proofs.dispatch in H. rewrite Hs1, Es in H. cbn [kind_of poll_dispatch] in H.
+    assert (Es1 : f_state f1 = CheckTokenPass att) by congruence.
+    destruct (check_slot_expired f1 now) as [[f2 b]| |] eqn:Ecs.
+    2:{ unfold do_check_token_pass, assert_entry in H. rewrite Es1 in H. cbn [kind_of do_fn_entry state_kind_eqb bind] in H.
+        rewrite Ecs in H. discriminate H. }
+    2:{ unfold do_check_token_pass, assert_entry in H. rewrite Es1 in H. cbn [kind_of do_fn_entry state_kind_eqb bind] in H.
+        rewrite Ecs in H. discriminate H. }
+    destruct b.
+    + exfalso. destruct (do_check_token_pass_expired A _ _ _ _ _ _ _ Es1 Ecs H) as (f3 & w3 & Hd & Hs3 & _ & _ & _ & _ & _ & Htx3 & _).
+      assert (Hw3 : w_tx w3 = None) by congruence.
+      apply (C11Proofs.do_pass_token_spec A f3 now w3 f' w' false (check_pass_next att) Hs3 Hw3) in Hd.
+      destruct Hd as [[_ [_ [_ [_ [Hs _]]]]] _ _ _ _|addr Hdg _ _ _ _ _ _ _ _|[r' [_ [_ [T _]]]]].
+      * rewrite Hs, Hs3 in Hst'. discriminate Hst'.
+      * discriminate Hdg.
+      * rewrite Htx in T. discriminate T.
+    + destruct (ctp_wait_exact A _ _ _ _ _ _ _ _ Es1 Ecs H Hst') as (Hl' & _ & Hrx' & Hp').
+      rewrite Hrx1 in Hrx'. rewrite Hrx'. rewrite Hrx' in Hp'.
+      destruct (Nat.ltb (f_pending f) (length rxb)).
+      * destruct Hlba as [Hl1 Hp1]. rewrite Hl1 in Hl'. rewrite Hp1 in Hp'. cbn [gv] in Hl'.
+        split; [|split; [reflexivity|exact Hp']]. rewrite Hl'. f_equal.
+        destruct (f_lba f); cbn [gv]; [reflexivity|symmetry; apply Z.max_id].
+      * subst f1. split; [exact Hl'|split; [reflexivity|exact Hp']].
+Qed.
+
+End PartB.
